@@ -60,9 +60,9 @@ impl<'a> RuleDest<'a> {
 impl Drop for RuleDest<'_> {
     fn drop(&mut self) {
         if let Err(err) = self.commit_rule() {
-            eprintln!("Error in ending RuleDest: {err}");
             #[cfg(feature = "verif_hooks")]
             crate::verif::emit("dropped", "rule", &err.to_string());
+            self.parent.head().defer_error(err);
         }
         self.parent.separate();
     }
@@ -228,9 +228,9 @@ impl Drop for AtRuleDest<'_> {
         }
         let result = AtRule::new(name, args, Some(body));
         if let Err(err) = self.parent.push_item(result.into()) {
-            eprintln!("Error ending AtRuleDest: {err}");
             #[cfg(feature = "verif_hooks")]
             crate::verif::emit("dropped", "atrule", &err.to_string());
+            self.parent.head().defer_error(err);
         }
         self.parent.separate();
     }
@@ -351,9 +351,9 @@ impl Drop for AtMediaDest<'_> {
         }
         let result = MediaRule::new(args, body);
         if let Err(err) = self.parent.push_item(result.into()) {
-            eprintln!("Error ending AtRuleDest: {err}");
             #[cfg(feature = "verif_hooks")]
             crate::verif::emit("dropped", "atmedia", &err.to_string());
+            self.parent.head().defer_error(err);
         }
         self.parent.separate();
     }
